@@ -107,6 +107,9 @@ class Analyzer(ast.NodeVisitor):
         base = self.alias_root(p)
         if l == "TID0" or l.startswith("WTAG") or l.startswith("PARAM:"):
           return f"MOD:{base}:{l}"
+      # X % n with n a closure variable of the enclosing kernel factory (resolved through the factory's call sites)
+      if isinstance(r, ast.Name) and r.id not in self.env and (l == "TID0" or l.startswith("WTAG") or l.startswith("PARAM:")):
+        return f"MODF:{r.id}:{l}"
       return "OTHER"
     if isinstance(e, ast.Subscript):
       root, lead, full = self.subscript_root(e)
@@ -114,7 +117,20 @@ class Analyzer(ast.NodeVisitor):
         return "WTAG:" + root
       return "OTHER"
     if isinstance(e, ast.IfExp):
-      return join(self.av(e.body), self.av(e.orelse))
+      # (w % n) if wp.static(n > 1) else 0   ==   w % n   (n = 1 gives 0)
+      b = self.av(e.body)
+      t = e.test
+      if (
+        b.startswith("MODF:")
+        and isinstance(t, ast.Call)
+        and _txt(t.func) == "wp.static"
+        and len(t.args) == 1
+        and _txt(t.args[0]) == b.split(":")[1] + " > 1"
+        and isinstance(e.orelse, ast.Constant)
+        and e.orelse.value == 0
+      ):
+        return b
+      return join(b, self.av(e.orelse))
     return "OTHER"
 
   def alias_root(self, name):
@@ -164,6 +180,9 @@ class Analyzer(ast.NodeVisitor):
 
   def scan_call(self, c):
     f = _txt(c.func)
+    if isinstance(c.func, ast.Call) and _txt(c.func.func) == "wp.static" and c.func.args and isinstance(c.func.args[0], ast.Call):
+      # call of a wp.func built by a factory: wp.static(factory(static args))(args)
+      f = "@factory:" + _txt(c.func.args[0].func)
     m = re.match(r"wp\.(atomic_\w+|tile_atomic_add|tile_store)$", f)
     if m and c.args:
       tgt = c.args[0] if not f.endswith("tile_store") else c.args[0]
@@ -339,6 +358,48 @@ class Analyzer(ast.NodeVisitor):
         self.scan_reads(c)
 
 
+TREES = {}
+
+
+def closure_exprs(mod, factory, var, depth=0):
+  """Host expressions (source text) that reach parameter `var` of kernel/func factory `mod.factory`,
+  followed through enclosing factories that merely pass their own parameter on."""
+  tree = TREES.get(mod)
+  node = next((n for n in tree.body if isinstance(n, ast.FunctionDef) and n.name == factory), None) if tree else None
+  if node is None:
+    return {"?" + var}
+  params = [a.arg for a in node.args.args]
+  if var not in params:
+    return {"?" + var}
+  pos = params.index(var)
+  out = set()
+  for m2, t2 in TREES.items():
+    for top in t2.body:
+      tops = [top]
+      for c in ast.walk(top):
+        if not isinstance(c, ast.Call):
+          continue
+        fn = c.func
+        if isinstance(fn, ast.Name):
+          if fn.id != factory or m2 != mod:
+            continue
+        elif isinstance(fn, ast.Attribute):
+          if fn.attr != factory or _txt(fn.value) != mod:
+            continue
+        else:
+          continue
+        arg = c.args[pos] if pos < len(c.args) else next((k.value for k in c.keywords if k.arg == var), None)
+        if arg is None:
+          out.add("?default")
+          continue
+        enc = top if isinstance(top, ast.FunctionDef) else None
+        if isinstance(arg, ast.Name) and enc is not None and arg.id in [a.arg for a in enc.args.args] and depth < 4:
+          out |= closure_exprs(m2, enc.name, arg.id, depth + 1)
+        else:
+          out.add(_txt(arg))
+  return out or {"?uncalled"}
+
+
 def collect(repo="/repo"):
   """Parse every module of _src; return {qual: FuncInfo} for kernels and funcs (incl. those nested in factories)."""
   out = {}
@@ -348,6 +409,7 @@ def collect(repo="/repo"):
       continue
     mod = fn[:-3]
     tree = ast.parse(open(os.path.join(d, fn)).read())
+    TREES[mod] = tree
 
     def visit(node, factory=None):
       for n in node.body if hasattr(node, "body") else []:
@@ -491,6 +553,11 @@ def table(repo="/repo", roots=None):
     by_short.setdefault(q.split(".")[-1], []).append(q)
 
   def callee_qual(caller_q, name):
+    if name.startswith("@factory:"):
+      fac = name[len("@factory:") :]
+      mod = fac.split(".")[0] if "." in fac else caller_q.split(".")[0]
+      cands = [q for q, fi in funcs.items() if fi.kind == "func" and fi.factory == fac.split(".")[-1] and q.split(".")[0] == mod]
+      return cands[0] if len(cands) == 1 else None
     short = name.split(".")[-1]
     cands = by_short.get(short, [])
     if len(cands) == 1:
@@ -590,6 +657,28 @@ def table(repo="/repo", roots=None):
           reach.add(cq)
           work.append(cq)
 
+  def array_exprs(q, param, depth=0):
+    """Host expressions bound to array parameter `param` of kernel/func q (through callers for funcs)."""
+    fi = funcs[q]
+    out = set()
+    if fi.kind == "kernel":
+      for args in sites_of(q, fi)[0]:
+        if len(args) == len(fi.params):
+          out.add(args[fi.params.index(param)].strip())
+      return out
+    if depth > 4:
+      return {"?deep"}
+    for cq0, cfi in funcs.items():
+      for name, args, line in cfi.calls:
+        if callee_qual(cq0, name) != q:
+          continue
+        k = fi.params.index(param)
+        if k < len(args) and args[k][0] == "ARR":
+          out |= array_exprs(cq0, args[k][1], depth + 1)
+        else:
+          out.add("?nonarray")
+    return out
+
   rows = []
   for q, fi in sorted(funcs.items()):
     sites, wf = sites_of(q, fi)
@@ -612,7 +701,16 @@ def table(repo="/repo", roots=None):
           role = "mixed"
       if role is None:
         role = role_by_name(param, roles, fi.array_ndim.get(param))
-      rows.append({"kernel": q, "fkind": fi.kind, "param": param, "role": role, "idx": resolve(q, fi, av), "kind": kind, "line": line})
+      idx = resolve(q, fi, av)
+      if idx.startswith("MODF:"):
+        _, var, rest = idx.split(":", 2)
+        ns = closure_exprs(q.split(".")[0], fi.factory, var) if fi.factory else {"?" + var}
+        arrs = array_exprs(q, param)
+        if len(arrs) == 1 and ns == {next(iter(arrs)) + ".shape[0]"}:
+          idx = f"MOD:{param}:{rest}"  # modulo the leading size of the very array it indexes
+        else:
+          idx = "MOD:" + "|".join(sorted(ns)).replace(":", ";") + f"<-{var}:{rest}"
+      rows.append({"kernel": q, "fkind": fi.kind, "param": param, "role": role, "idx": idx, "kind": kind, "line": line})
   return rows, funcs
 
 
